@@ -33,7 +33,7 @@ STORES = [T.list(), T.list(obj()), T.list(obj(), obj())]
 S = dict(mode="int", spec_module="spec_ldm", props=["C13", "C14"], frame_check=False)
 DBS = T.obj(DB, database=T.opaque("object"), _lock=T.opaque("rlock"), _next_id=T.int(0))
 
-contract(f"{DB}._filter_data", shapes={"self": DBS, "data_filter": T.oneof(*FILTERS), "database": T.oneof(*STORES)},
+contract(f"{DB}._filter_data", bound="stores of 0..2 objects, attribute paths of 1-2 components, integer values, sampled operator pairs for two-statement filters", shapes={"self": DBS, "data_filter": T.oneof(*FILTERS), "database": T.oneof(*STORES)},
          ensures={"as_many_results_as_matching_objects": "len(result) == n_matching(database, data_filter)",
                   "first_object_returned_first_iff_it_matches": "implies(len(database) > 0 and filter_matches(database[0], data_filter), result[0] is database[0])",
                   "second_object_returned_after_it_iff_it_matches": "implies(len(database) > 1 and filter_matches(database[1], data_filter), ite(filter_matches(database[0], data_filter), result[1] is database[1], result[0] is database[1]))"},
@@ -43,7 +43,7 @@ contract(f"{DB}._filter_data", shapes={"self": DBS, "data_filter": T.oneof(*FILT
 from . import models_tinydb
 TDB = f"{LDM}.tinydb_database:TinyDB"
 TS = dict(S, engine_setup=models_tinydb.setup)
-contract(f"{TDB}.parse_filter_statement", shapes={"self": T.obj(TDB, database=T.opaque("object"), _lock=T.opaque("rlock")),
+contract(f"{TDB}.parse_filter_statement", bound="attribute paths of 1-2 components, integer reference values, sampled operator pairs for two-statement filters", shapes={"self": T.obj(TDB, database=T.opaque("object"), _lock=T.opaque("rlock")),
                                                    "query": T.opaque("tq"), "filter": T.oneof(*FILTERS)},
          ensures={"query_denotes_the_filter_on_the_stored_message": "model('query_formula', result) == tinydb_filter_matches(filter)"},
          canary={"always_true": "model('query_formula', result)"}, **TS)
